@@ -3251,7 +3251,7 @@ theorem rpkiShown_nil (n : Nlri) (sent : List ApiAttr) (stored : List Attribute)
     * API cases: the scalar fields are within their protobuf widths.
     * `grpc` (AddPath then ListPath): no attribute that `local_path` consumes or drops is sent
       (NEXT_HOP / raw MP_REACH, ORIGINATOR_ID, CLUSTER_LIST, raw MP_UNREACH) — ListPath does not show
-      them: the open findings `listed-path-lacks-*`; and no VRP is installed: the state shown is then
+      them: the open findings `listed-path-lacks-*`; the global table (not a VRF); and no VRP is installed: the state shown is then
       NotFound (the validation state against VRPs is RFC 6811's and property C12's subject: here it is
       only cross-checked on the real handlers against `Spec.rpkiExpected`). -/
 def caseOk : Case → Prop
@@ -3259,8 +3259,8 @@ def caseOk : Case → Prop
   | .attrApi x => x.inRange = true
   | .nlriWire _ bs => AllB bs
   | .nlriApi x => x.inRange = true
-  | .grpc x attrs vrps =>
-      x.inRange = true ∧ (∀ a ∈ attrs, a.inRange = true) ∧ (∀ a ∈ attrs, kept a) ∧ vrps = []
+  | .grpc x attrs vrps vrf =>
+      x.inRange = true ∧ (∀ a ∈ attrs, a.inRange = true) ∧ (∀ a ∈ attrs, kept a) ∧ vrps = [] ∧ vrf = false
   | .explore _ => True
 
 /-- **master theorem**: the reference checker written from the property text accepts every run of the
@@ -3319,8 +3319,8 @@ theorem check_run_ok (c : Case) (h : caseOk c) : Spec.check c (run current c) = 
           simp only [nlriObs, nlri_listed_same x n h hst h0, if_true]
       | err => rfl
       | panic => exact absurd hf (netFromApi_no_panic x)
-  | grpc x attrs vrps =>
-      obtain ⟨hx, hr, hk, rfl⟩ := h
+  | grpc x attrs vrps vrf =>
+      obtain ⟨hx, hr, hk, rfl, rfl⟩ := h
       simp only [run]
       cases hf : netFromApi current x with
       | ok n =>
@@ -3328,14 +3328,15 @@ theorem check_run_ok (c : Case) (h : caseOk c) : Spec.check c (run current c) = 
           simp only
           cases hl : localPath current attrs with
           | ok stored =>
-              simp only
+              simp only [Bool.false_and, Bool.false_eq_true, if_false]
               split
               · rename_i hm
                 simp only [List.all_eq_true] at hm
                 obtain ⟨ys, hys, hcp, hwfs⟩ := checkPath_ok' attrs stored hr hk hl hm
                 obtain ⟨v, hv, hck⟩ := rpkiShown_nil n attrs stored hwfs
                 rw [nlri_listed_same x n hx hst h0] at hck
-                simp only [hys, hv, Spec.check, nlri_listed_same x n hx hst h0, if_true, hcp, seq, hck]
+                simp only [hys, hv, Spec.check, nlri_listed_same x n hx hst h0, if_true, hcp, seq, hck, Bool.false_eq_true,
+                  if_false]
               · rfl
           | err => rfl
           | panic =>
